@@ -77,6 +77,7 @@ func c02Alphabet() (lines []c02Line, hA, hB string) {
 		net(false, p, false, "third-party", "important"),                                   // browser-only modifier next to a DNS-level one
 		net(true, p, false, "document", "important"),
 		net(false, p, false, "popup", "important"),
+		net(true, p, true, "dnsrewrite=1.2.3.4"), // an exception to the rewrite of the core alphabet: a request may match rewrite rules only
 	}
 	for i, l := range lines {
 		if strings.HasPrefix(l.text, "0.0.0.0 Tracker.Example.ORG") {
@@ -367,6 +368,16 @@ func (m *c02Model) run(hist []int) statespace.Outcome {
 		got := fmt.Sprintf("matched=%v class=%s rules=%v v4=%v v6=%v", matched, c06ClassNames[gotClass], sortedSet(netTexts(res.NetworkRules)), sortedSet(gotV4), sortedSet(gotV6))
 		want := fmt.Sprintf("matched=%v class=%s rules=%v v4=%v v6=%v", wantMatched, c06ClassNames[wantClass], sortedSet(wantNR), sortedSet(wantV4), sortedSet(wantV6))
 		obs.WriteString(strconv.Itoa(gotClass))
+		// the accessors of the result only read it: the answer is the same after they have been called
+		if p := protect(func() { _ = res.DNSRewrites(); _ = res.DNSRewritesAll(); _ = res.DNSRewrites() }); p != nil && !reported {
+			reported = true
+			violate("no-crash", map[string]any{"lines": sortedSet(texts), "request": q.desc, "route": "DNSRewrites"}, fmt.Sprintf("list %q, request %s: DNSRewrites/DNSRewritesAll on the result panic: %v", texts, q.desc, p))
+		}
+		if after := fmt.Sprintf("matched=%v class=%s rules=%v v4=%v v6=%v", matched, c06ClassNames[c06ClassOfRule(res.NetworkRule)], sortedSet(netTextsSafe(res.NetworkRules)), sortedSet(gotV4), sortedSet(gotV6)); after != got && !reported {
+			reported = true
+			violate("dns-answer-equals-reference", map[string]any{"lines": sortedSet(texts), "request": q.desc, "route": "result read again after DNSRewrites"},
+				fmt.Sprintf("list %q, request %s: the result reads %s; after DNSRewrites() and DNSRewritesAll() have been called on it, it reads %s", texts, q.desc, got, after))
+		}
 		if dup := moreOftenThan(netTexts(res.NetworkRules), wantNR); dup != "" && !reported {
 			reported = true
 			violate("dns-answer-equals-reference", map[string]any{"lines": sortedSet(texts), "request": q.desc, "duplicate": dup},
